@@ -48,6 +48,14 @@ def fspec(codec, types, nrg, npages, rpp, seed):
     return f"{tmpdir()} {codec} {types} {nrg} {npages} {rpp} {seed}"
 
 
+def san_summary(err):
+    """one line out of a sanitizer report: the error kind and the first frames inside the library"""
+    m = re.search(r"(ERROR: AddressSanitizer: [^\n]*|runtime error: [^\n]*|ERROR: LeakSanitizer: [^\n]*|SUMMARY: [^\n]*)", err)
+    frames = re.findall(r"#\d+ 0x[0-9a-f]+ in (\S+) (\S+?/src/\S+)", err)
+    fr = "; ".join(f"{f} {Path(w.split(':')[0]).name}:{w.split(':')[1] if ':' in w else ''}" for f, w in frames[:4])
+    return ((m.group(1) if m else err[-300:]) + (" at " + fr if fr else ""))[:700]
+
+
 def parse_kv(line):
     t = line.split()
     kv = {"_status": t[0] if t else "FAULT"}
@@ -244,7 +252,7 @@ def check_forced(rep, tier, rng, drv, runner):
     lines = [c["line"] for c in cases]
     out, probs = run_sharded(drv, lines, env=san_env(), timeout=1500)
     for pr in probs:
-        rep.violation(f"driver died on a forced schedule (rc={pr[1]}): {pr[2][-700:]}", {"case": pr[3]})
+        rep.violation(f"driver died on a forced schedule (rc={pr[1]}): {san_summary(pr[2])}", {"case": pr[3]})
     # model runs (atomic model for all cases; unlocked model for the cases whose schedule was realised)
     mlines, mindex = [], []
     feasible = 0
@@ -376,7 +384,7 @@ def check_sweep(rep, tier, rng, drv):
         return
     out, probs = run_sharded(drv, lines, env=san_env(), timeout=1500)
     for pr in probs:
-        rep.violation(f"driver died in the thread sweep (rc={pr[1]}): {pr[2][-700:]}", {"case": pr[3]})
+        rep.violation(f"multi-threaded batch read crashed (driver rc={pr[1]}): {san_summary(pr[2])}", {"case": pr[3]})
     dist = {}
     for li, o in zip(lines, out):
         rep.count(li)
@@ -391,7 +399,8 @@ def check_sweep(rep, tier, rng, drv):
         if kv.get("eq") != "1":
             rep.violation(f"{t[8]} mode, codec {CODECS[int(t[2])]}, num_threads={t[10]}"
                           f"{' with delays injected at the yield hook' if t[11].startswith('jit') else ''}: "
-                          f"statuses {kv.get('st')} / rows {kv.get('rows')} differ from the single-threaded run {kv.get('base')}",
+                          + (f"statuses {kv.get('st')} differ from the single-threaded run {kv.get('base')}" if kv.get('st') != kv.get('base')
+                             else f"same statuses ({kv.get('st')}) but the content of the batches differs from the single-threaded run (rows {kv.get('rows')})"),
                           {"case": li, "impl": o[:1500]})
     rep.cov.setdefault("input_distribution", {}).update(dist)
     rep.sample({"op": "sweep", "case": lines[3], "result": out[3][:120]})
@@ -418,7 +427,7 @@ def check_indep(rep, tier, rng, drv):
         return
     out, probs = run_sharded(drv, warm, env=san_env(), timeout=1500)
     for pr in probs:
-        rep.violation(f"driver died with independent readers (rc={pr[1]}): {pr[2][-700:]}", {"case": pr[3]})
+        rep.violation(f"independent readers crashed (driver rc={pr[1]}): {san_summary(pr[2])}", {"case": pr[3]})
     reps = 1 if tier == "quick" else 4
 
     def one(line):
